@@ -6,6 +6,17 @@ import z3
 from llsym import REAL, simp
 
 
+_F = {}
+
+
+def _fn(name, *sorts):
+    if name not in _F: _F[name] = z3.Function(name, *sorts)
+    return _F[name]
+
+
+def _b(x, n): return x if type(x) is not int else z3.BitVecVal(x, n)
+
+
 def _finite(E, st, v):
     # exponent field != 0x7ff
     return E.assume(st, z3.Extract(62, 52, v) != 0x7ff)
@@ -14,38 +25,57 @@ def _finite(E, st, v):
 def _sym(*xs): return any(type(x) is not int for x in xs)
 
 
+def _pin(E, st, a, idxs):
+    """If the path condition pins every scalar argument a[i] (i in idxs) to one value, replace it by that value (the real
+    back end then runs on concrete arguments).  Returns True if all are pinned."""
+    vals = {}
+    for i in idxs:
+        x = a[i]
+        if type(x) is int: continue
+        v = st.model.eval(x, model_completion=True).as_long()
+        if E.sat(st.pc, x != v): return False
+        vals[i] = v
+    for i, v in vals.items(): a[i] = v
+    return True
+
+
+# The stubs are UNINTERPRETED FUNCTIONS of their scalar arguments: the same (mantissa, exponent, sign) gives the same
+# (unknown, finite) double every time, so parsing the same text twice yields equal values.
 def stub_parseFloatingFast(E, st, fr, a):
+    if _pin(E, st, a, (2, 3)): return REAL
     this, dptr, exp10, man = a
-    if not _sym(exp10, man): return REAL
-    v = E.fresh(st, 'dbl', 64); _finite(E, st, v)
+    B64 = z3.BitVecSort(64); B32 = z3.BitVecSort(32); B1 = z3.BitVecSort(1)
+    v = _fn('stub!pff', B32, B64, B64)(_b(exp10, 32), _b(man, 64)); _finite(E, st, v)
     E.store_bytes(st, dptr, 8, v)
     st.notes.append(('number-stub', 'parseFloatingFast'))
     E.stats['number_stub'] = E.stats.get('number_stub', 0) + 1
-    # returns false only when exp10 > 22 and the intermediate exceeds 1e15; over-approximated by a free bit
+    # returns false only when exp10 > 22 and the intermediate exceeds 1e15; over-approximated by a free (but functional) bit
     if type(exp10) is int and exp10 <= 22: return 1
-    return E.fresh(st, 'pffret', 1)
+    return _fn('stub!pffret', B32, B64, B1)(_b(exp10, 32), _b(man, 64))
 
 
 def stub_ParseFloatingNormalFast(E, st, fr, a):
+    if _pin(E, st, a, (1, 2, 3)): return REAL
     rawptr, exp10, man, sgn = a
-    if not _sym(exp10, man, sgn): return REAL
-    v = E.fresh(st, 'dbl', 64); _finite(E, st, v)
+    B64 = z3.BitVecSort(64); B32 = z3.BitVecSort(32); B1 = z3.BitVecSort(1)
+    v = _fn('stub!pfnf', B32, B64, B32, B64)(_b(exp10, 32), _b(man, 64), _b(sgn, 32)); _finite(E, st, v)
     E.store_bytes(st, rawptr, 8, v)
     st.notes.append(('number-stub', 'ParseFloatingNormalFast'))
     E.stats['number_stub'] = E.stats.get('number_stub', 0) + 1
-    return E.fresh(st, 'pfnfret', 1)
+    return _fn('stub!pfnfret', B32, B64, B1)(_b(exp10, 32), _b(man, 64))
 
 
 def stub_parseFloatEiselLemire64(E, st, fr, a):
+    if _pin(E, st, a, (2, 3, 4, 5)): return REAL
     this, dptr, exp10, man, sgn, trunc, s_ = a
-    if not _sym(exp10, man, sgn, trunc): return REAL
     # outside the stub's contract: decimal exponents where overflow to infinity is possible (man < 2^64 < 1.9e19).
     e = exp10 if type(exp10) is not int else z3.BitVecVal(exp10, 32)
     from llsym import PathEnd
     if not E.assume(st, z3.And(e > -400, e < 280)):
         E.stats['number_stub_dropped'] = E.stats.get('number_stub_dropped', 0) + 1
         raise PathEnd()
-    v = E.fresh(st, 'dbl', 64); _finite(E, st, v)
+    B64 = z3.BitVecSort(64); B32 = z3.BitVecSort(32); B8 = z3.BitVecSort(8)
+    v = _fn('stub!pfel', B32, B64, B32, B8, B64)(_b(exp10, 32), _b(man, 64), _b(sgn, 32), _b(trunc, 8) if type(trunc) is int or trunc.size() == 8 else z3.ZeroExt(8 - trunc.size(), trunc)); _finite(E, st, v)
     E.store_bytes(st, dptr, 8, v)
     st.notes.append(('number-stub', 'parseFloatEiselLemire64'))
     E.stats['number_stub'] = E.stats.get('number_stub', 0) + 1
